@@ -42,6 +42,9 @@ ASSUMPTIONS = [
     "relays outside the consensus may carry the nickname of a consensus relay (nicknames are not unique); every hop "
     "of Circuit.path must have exactly the fingerprint Tor reported",
     "IPv6 literals may be kept with or without brackets",
+    "XOFF_SENT/XOFF_RECV/XON_SENT/XON_RECV lines (Tor >= 0.4.7) are not among the event kinds of the quantifier: what "
+    "Stream.state reads after one is not judged until the next life-cycle line; that no exception escapes, the stream "
+    "stays listed with its target and attachment, and later lines are processed, is",
     "SOCKS_USERNAME/SOCKS_PASSWORD keywords (QuotedStrings) may be kept in wire form or unescaped; a quoted value "
     "containing a blank is not judged, everything else about that line is",
     "in a quarter of the cases a minimal IStreamAttacher is installed after the bootstrap (set_attacher): TorSim then "
@@ -83,7 +86,7 @@ FLOORS = {
               "closed_after_failed_delivered": 150, "stream_first_seen_in_mid_life": 150, "unattached_by_remap_0": 60,
               "objects_with_quoted_keywords": 500, "quoted_flag_values_compared": 2500,
               "flag_values_with_blank_not_judged": 2000,
-              "moved_without_detached": 35, "moved_streams_compared": 100, "cases_with_one_shot_listeners": 80,
+              "flow_control_lines": 100, "moved_without_detached": 35, "moved_streams_compared": 100, "cases_with_one_shot_listeners": 80,
               "listeners_unlistened_inside_final_notification": 450,
               "cases_with_attacher": 100, "attachstream_commands": 250, "failed_streams_with_attacher": 100,
               "reach:txtorcon.stream:Stream.update": 4200, "reach:txtorcon.circuit:Circuit.update": 4200,
@@ -95,7 +98,7 @@ FLOORS = {
                  "reattached_to_other_circuit": 2500, "hop_outside_consensus_named_like_consensus_relay": 8000, "unattached_by_remap_0": 1500},
 }
 
-SIM_STATS = ["moved_without_detached", "objects_with_quoted_keywords", "unattached_by_remap_0", "failed_closed_pairs", "stream_first_seen_in_mid_life", "circuit_id_reused", "stream_id_reused", "circuit_died_under_streams",
+SIM_STATS = ["flow_control_lines", "moved_without_detached", "objects_with_quoted_keywords", "unattached_by_remap_0", "failed_closed_pairs", "stream_first_seen_in_mid_life", "circuit_id_reused", "stream_id_reused", "circuit_died_under_streams",
              "detached_after_circuit_died", "ended_after_circuit_died", "reattached_after_detach",
              "reattached_to_other_circuit", "hop_not_in_consensus",
              "hop_outside_consensus_named_like_consensus_relay", "cannibalized",
@@ -241,7 +244,10 @@ def compare(state, sim, rec=None):
         n_s += 1
         if s.id != sid:
             V("stream-id", stream_class(m), {"key": sid, "object_id": s.id}, who)
-        if s.state != m.status:
+        if m.state_unjudged:
+            if rec is not None:
+                rec.count("stream_status_not_judged_after_flow_control_line")
+        elif s.state != m.status:
             V("stream-state", stream_class(m), {"id": sid, "got": s.state, "want": m.status}, who)
         th, tp = m.reported_target
         try:
@@ -299,7 +305,9 @@ def compare(state, sim, rec=None):
                 bad = (how, sid)
         for w in want:
             if not any(w is x for x in got):
-                bad = ("missing-member", w.id)
+                ms = sim.streams.get(w.id)
+                bad = ("missing-member" + (",member-first-seen-by-flow-control-line"
+                                           if ms is not None and ms.first_seen == "event-flow-control-line" else ""), w.id)
         if bad:
             V("circuit-streams", "%s,circuit-last=%s" % (bad[0], m.status),
               {"circuit": cid, "got": [getattr(x, "id", None) for x in got],
@@ -515,7 +523,18 @@ def run_case(case, rec, mutate_hook=None):
     return rep
 
 
+def quiet_twisted_log():
+    """errors txtorcon logs (e.g. 'Unknown state' for flow-control lines) are captured per case by
+    LogCapture; keep Twisted from also printing them"""
+    try:
+        from twisted.logger import globalLogBeginner
+        globalLogBeginner.beginLoggingTo([lambda event: None], redirectStandardIO=False, discardBuffer=True)
+    except Exception:       # noqa
+        pass
+
+
 def run_shard(spec, rec):
+    quiet_twisted_log()
     for i in range(spec["n"]):
         rnd = gen.rnd_for(spec["seed"], PROPERTY, spec["shard"], i)
         case = gen_case(rnd, spec["tier"])
@@ -526,6 +545,7 @@ def run_shard(spec, rec):
 
 
 def replay(case, rec):
+    quiet_twisted_log()
     run_case(case, rec)
 
 
